@@ -672,5 +672,15 @@ if __name__ == "__main__":
     idest = os.path.join(os.path.dirname(dest), "IterMutGen.lean")
     if not os.path.exists(idest) or open(idest).read() != itext:
         open(idest, "w").write(itext); changed = True
-    print(json.dumps({"translated": done + sdone + kdone + idone,
-                      "untranslated": failed + sfailed + kfailed + ifailed, "changed": changed}, indent=1))
+    import t5
+    ttext, tdone, tfailed = t5.run_transpose(root)
+    tdest = os.path.join(os.path.dirname(dest), "TransposeGen.lean")
+    if not os.path.exists(tdest) or open(tdest).read() != ttext:
+        open(tdest, "w").write(ttext); changed = True
+    import t6
+    otext, odone, ofailed = t6.run_overwrite(root)
+    odest = os.path.join(os.path.dirname(dest), "OverwriteGen.lean")
+    if not os.path.exists(odest) or open(odest).read() != otext:
+        open(odest, "w").write(otext); changed = True
+    print(json.dumps({"translated": done + sdone + kdone + idone + tdone + odone,
+                      "untranslated": failed + sfailed + kfailed + ifailed + tfailed + ofailed, "changed": changed}, indent=1))
